@@ -678,6 +678,13 @@ class Emitter:
         for label, ins in blocks:
             phis[label] = [I for I in ins if I['op'] == 'phi']
         self.cur_phis = phis
+        # blocks that only trap (clang merges all checks of one kind into one such block per function): they are
+        # emitted inline at every branch to them, which spares CBMC a state merge per incoming edge
+        self.cur_trapblocks = {}
+        for label, ins in blocks:
+            if (len(ins) == 2 and ins[0]['op'] == 'call' and ins[0]['callee'][0] == 'global'
+                    and ins[0]['callee'][1] in ('llvm.ubsantrap', 'llvm.trap') and ins[1]['op'] == 'unreachable'):
+                self.cur_trapblocks[label] = ins
         body = []
         zero_ret = 'return;' if f.ret == ('void',) else 'return %s;' % self.zero_of(f.ret)
         self.zero_ret = zero_ret
@@ -744,6 +751,10 @@ class Emitter:
 
     def edge(self, frm, to, body):
         """phi copies + goto"""
+        if to in self.cur_trapblocks:
+            for I in self.cur_trapblocks[to]:
+                self.emit_instr(I, to, body, None)
+            return
         ph = self.cur_phis[to]
         if ph:
             vals = []
